@@ -1,6 +1,7 @@
 import Ktm.CoreProps
 import Ktm.Grid
 import Ktm.Random
+import Ktm.Hyperband
 /-! C04, second clause — "a search that maximises an objective issues exactly the same trials and ranking as one that
     minimises its negation", as a theorem about whole searches.
 
@@ -23,19 +24,26 @@ def negR (r : Option Int) : Option Int := r.map (fun x => -x)
 
 def negTrial (t : Trial V) : Trial V := { t with score := t.score.map (fun x => -x), reports := t.reports.map negR }
 
-def negO (o : Oracle V A) : Oracle V A := { o with trials := o.trials.map negTrial }
+/-- mirror image of a state: every report and score negated, the algorithm state mapped by `f` (the identity for score-blind
+    algorithms; for Hyperband it flips the direction flag the state carries) -/
+def negOf (f : A → A) (o : Oracle V A) : Oracle V A := { o with trials := o.trials.map negTrial, alg := f o.alg }
+
+abbrev negO (o : Oracle V A) : Oracle V A := negOf id o
 
 def negOp : Op → Op
   | .update id r => .update id (negR r)
   | op => op
 
-structure Mirror (algMax algMin : Alg V A) : Prop where
+structure MirrorF (f : A → A) (algMax algMin : Alg V A) : Prop where
   score : ∀ l, algMin.scoreOf (l.map negR) = (algMax.scoreOf l).map (fun x => -x)
-  pop : ∀ (o : Oracle V A) (c : Nat), algMin.populate (negO o) c = algMax.populate o c
-  onEnd : ∀ (a : A) (i : Nat), algMin.onEnd a i = algMax.onEnd a i
+  pop : ∀ (o : Oracle V A) (c : Nat), algMin.populate (negOf f o) c = (f (algMax.populate o c).1, (algMax.populate o c).2)
+  onEnd : ∀ (a : A) (i : Nat), algMin.onEnd (f a) i = f (algMax.onEnd a i)
 
-theorem negO_getElem (o : Oracle V A) (i : Nat) : (negO o).trials[i]? = (o.trials[i]?).map negTrial := by
-  simp [negO, List.getElem?_map]
+/-- the score-blind case: same algorithm state on both sides -/
+abbrev Mirror (algMax algMin : Alg V A) : Prop := MirrorF id algMax algMin
+
+theorem negO_getElem (f : A → A) (o : Oracle V A) (i : Nat) : (negOf f o).trials[i]? = (o.trials[i]?).map negTrial := by
+  simp [negOf, List.getElem?_map]
 
 theorem negO_setTrial (ts : List (Trial V)) (i : Nat) (f g : Trial V → Trial V) (h : ∀ t, negTrial (f t) = g (negTrial t)) :
     (setTrial ts i f).map negTrial = setTrial (ts.map negTrial) i g := by
@@ -51,13 +59,13 @@ theorem statusOf_neg (ts : List (Trial V)) (i : Nat) : statusOf (ts.map negTrial
   cases ts[i]? <;> rfl
 
 /-- one request: same answer, mirrored state -/
-theorem mirror_step (algMax algMin : Alg V A) (m : Mirror algMax algMin) (o : Oracle V A) (op : Op) :
-    step algMin (negO o) (negOp op) = (negO (step algMax o op).1, (step algMax o op).2) := by
+theorem mirror_step (f : A → A) (algMax algMin : Alg V A) (m : MirrorF f algMax algMin) (o : Oracle V A) (op : Op) :
+    step algMin (negOf f o) (negOp op) = (negOf f (step algMax o op).1, (step algMax o op).2) := by
   cases op with
   | create tuner c =>
     simp only [negOp, step]
     unfold create
-    have hholds : holds (negO o) tuner = holds o tuner := rfl
+    have hholds : holds (negOf f o) tuner = holds o tuner := rfl
     rw [hholds]
     cases hh : holds o tuner with
     | some id =>
@@ -67,13 +75,13 @@ theorem mirror_step (algMax algMin : Alg V A) (m : Mirror algMax algMin) (o : Or
       | some t => rfl
     | none =>
       simp only []
-      have hrq : (negO o).retryQ.getLast? = o.retryQ.getLast? := rfl
+      have hrq : (negOf f o).retryQ.getLast? = o.retryQ.getLast? := rfl
       rw [hrq]
       cases hq : o.retryQ.getLast? with
       | some id =>
         simp only []
-        have hg : ({ negO o with tunerIds := addTuner (negO o).tunerIds tuner } : Oracle V A).trials[id]? = (o.trials[id]?).map negTrial := by
-          simp [negO, List.getElem?_map]
+        have hg : ({ negOf f o with tunerIds := addTuner (negOf f o).tunerIds tuner } : Oracle V A).trials[id]? = (o.trials[id]?).map negTrial := by
+          simp [negOf, List.getElem?_map]
         rw [hg]
         cases ht : o.trials[id]? with
         | none => rfl
@@ -81,24 +89,24 @@ theorem mirror_step (algMax algMin : Alg V A) (m : Mirror algMax algMin) (o : Or
           simp only [Option.map_some]
           have hset := negO_setTrial o.trials id (fun t => { t with status := .running }) (fun t => { t with status := .running })
             (fun t => rfl)
-          simp only [negO, negTrial] at hset ⊢
+          simp only [negOf, negTrial] at hset ⊢
           rw [← hset]
       | none =>
         simp only []
-        have hb : budgetReached ({ negO o with tunerIds := addTuner (negO o).tunerIds tuner } : Oracle V A)
+        have hb : budgetReached ({ negOf f o with tunerIds := addTuner (negOf f o).tunerIds tuner } : Oracle V A)
             = budgetReached ({ o with tunerIds := addTuner o.tunerIds tuner } : Oracle V A) := by
-          simp [budgetReached, negO]
+          simp [budgetReached, negOf]
         rw [hb]
         split
         · rfl
         · have hp := m.pop { o with tunerIds := addTuner o.tunerIds tuner } c
-          have heq : ({ negO o with tunerIds := addTuner (negO o).tunerIds tuner } : Oracle V A)
-              = negO { o with tunerIds := addTuner o.tunerIds tuner } := rfl
+          have heq : ({ negOf f o with tunerIds := addTuner (negOf f o).tunerIds tuner } : Oracle V A)
+              = negOf f { o with tunerIds := addTuner o.tunerIds tuner } := rfl
           rw [heq, hp]
           cases algMax.populate { o with tunerIds := addTuner o.tunerIds tuner } c with
           | mk a pop =>
             cases pop with
-            | run v => simp [negO, negTrial, negR]
+            | run v => simp [negOf, negTrial, negR]
             | idle => rfl
             | stop => rfl
   | update id r =>
@@ -111,7 +119,7 @@ theorem mirror_step (algMax algMin : Alg V A) (m : Mirror algMax algMin) (o : Or
       simp only [Option.map_some]
       have hset := negO_setTrial o.trials id (fun t => { t with reports := t.reports ++ [r] })
         (fun t => { t with reports := t.reports ++ [negR r] }) (fun t => by simp [negTrial])
-      simp only [negO] at hset ⊢
+      simp only [negOf] at hset ⊢
       rw [← hset]
   | endT id oc =>
     simp only [negOp, step]
@@ -121,16 +129,16 @@ theorem mirror_step (algMax algMin : Alg V A) (m : Mirror algMax algMin) (o : Or
     | none => rfl
     | some t =>
       simp only [Option.map_some]
-      have hon : isOngoing (negO o) id = isOngoing o id := rfl
+      have hon : isOngoing (negOf f o) id = isOngoing o id := rfl
       rw [hon]
       cases hio : isOngoing o id with
       | false => rfl
       | true =>
         simp only [Bool.not_true, Bool.false_eq_true, if_false]
         -- the decision mirrors: same status, same retry flag, negated score
-        have hdec : endDecision algMin (negO o).maxRetries (negTrial t) oc =
+        have hdec : endDecision algMin (negOf f o).maxRetries (negTrial t) oc =
             { endDecision algMax o.maxRetries t oc with sc := (endDecision algMax o.maxRetries t oc).sc.map (fun x => -x) } := by
-          have hmr : (negO o).maxRetries = o.maxRetries := rfl
+          have hmr : (negOf f o).maxRetries = o.maxRetries := rfl
           rw [hmr]
           unfold endDecision
           have hsc : algMin.scoreOf (negTrial t).reports = (algMax.scoreOf t.reports).map (fun x => -x) := m.score t.reports
@@ -149,7 +157,7 @@ theorem mirror_step (algMax algMin : Alg V A) (m : Mirror algMax algMin) (o : Or
             (fun t' => { t' with status := (endDecision algMax o.maxRetries t oc).st, runs := t.runs + 1,
                                  score := (endDecision algMax o.maxRetries t oc).sc.map (fun x => -x), reports := [] })
             (fun t' => by simp [negTrial])
-          simp only [negO, hruns, m.onEnd] at hset ⊢
+          simp only [negOf, hruns, m.onEnd] at hset ⊢
           rw [← hset]
         | false =>
           simp only [Bool.false_eq_true, if_false]
@@ -161,20 +169,20 @@ theorem mirror_step (algMax algMin : Alg V A) (m : Mirror algMax algMin) (o : Or
             (fun t' => by simp [negTrial])
           have hstat : ∀ ts' : List (Trial V), (o.endOrder ++ [id]).map (statusOf (ts'.map negTrial)) = (o.endOrder ++ [id]).map (statusOf ts') :=
             fun ts' => List.map_congr_left (fun i _ => statusOf_neg ts' i)
-          simp only [negO, hruns, m.onEnd] at hset ⊢
+          simp only [negOf, hruns, m.onEnd] at hset ⊢
           rw [← hset, hstat]
           split <;> rfl
 
 /-- **whole searches mirror each other**: for every request list the maximising search and the minimising search of
     the negated reports end in mirrored states … -/
-theorem mirror_run (algMax algMin : Alg V A) (m : Mirror algMax algMin) (ops : List Op) : ∀ (o : Oracle V A),
-    run algMin (negO o) (ops.map negOp) = negO (run algMax o ops) := by
+theorem mirror_run (f : A → A) (algMax algMin : Alg V A) (m : MirrorF f algMax algMin) (ops : List Op) : ∀ (o : Oracle V A),
+    run algMin (negOf f o) (ops.map negOp) = negOf f (run algMax o ops) := by
   induction ops with
   | nil => intro o; rfl
   | cons op ops ih =>
     intro o
     simp only [List.map_cons, run]
-    rw [mirror_step algMax algMin m o op]
+    rw [mirror_step f algMax algMin m o op]
     simp only []
     cases (step algMax o op).2 with
     | abort => rfl
@@ -187,14 +195,14 @@ def outputs (alg : Alg V A) : Oracle V A → List Op → List (Out V)
     let r := step alg o op
     r.2 :: (match r.2 with | .abort => [] | _ => outputs alg r.1 ops)
 
-theorem mirror_outputs (algMax algMin : Alg V A) (m : Mirror algMax algMin) (ops : List Op) : ∀ (o : Oracle V A),
-    outputs algMin (negO o) (ops.map negOp) = outputs algMax o ops := by
+theorem mirror_outputs (f : A → A) (algMax algMin : Alg V A) (m : MirrorF f algMax algMin) (ops : List Op) : ∀ (o : Oracle V A),
+    outputs algMin (negOf f o) (ops.map negOp) = outputs algMax o ops := by
   induction ops with
   | nil => intro o; rfl
   | cons op ops ih =>
     intro o
     simp only [List.map_cons, outputs]
-    rw [mirror_step algMax algMin m o op]
+    rw [mirror_step f algMax algMin m o op]
     simp only []
     cases (step algMax o op).2 with
     | abort => rfl
@@ -244,7 +252,7 @@ end randomSearch
 def gridAlg (minimize : Bool) : Alg GridSucc.Env Grid.St := { Grid.alg with scoreOf := bestOf minimize }
 
 theorem grid_valsOf_neg (o : Grid.O) (i : Nat) : Grid.valsOf (negO o) i = Grid.valsOf o i := by
-  simp only [Grid.valsOf, negO, List.getElem?_map]
+  simp only [Grid.valsOf, negOf, List.getElem?_map]
   cases o.trials[i]? <;> rfl
 
 theorem grid_scanQueue_neg (o : Grid.O) (s : Grid.St) (q : List Nat) : Grid.scanQueue (negO o) s q = Grid.scanQueue o s q := by
@@ -259,10 +267,152 @@ theorem grid_mirror : Mirror (gridAlg false) (gridAlg true) := by
   intro o c
   show Grid.populate (negO o) c = Grid.populate o c
   unfold Grid.populate
-  have hlen : (negO o).trials.length = o.trials.length := by simp [negO]
+  have hlen : (negO o).trials.length = o.trials.length := by simp [negOf]
   have halg : (negO o).alg = o.alg := rfl
   have hong : (negO o).ongoing = o.ongoing := rfl
   simp only [hlen, halg, hong, grid_scanQueue_neg]
+
+/-! ### Hyperband: the direction flag lives in the algorithm state -/
+
+def flipDir (s : HB.St) : HB.St := { s with cfg := { s.cfg with minimize := !s.cfg.minimize } }
+
+def negPair (p : Nat × Int) : Nat × Int := (p.1, -p.2)
+
+theorem hb_bestOf_neg (m : Bool) (l : List (Nat × Int)) : HB.bestOf (!m) (l.map negPair) = (HB.bestOf m l).map negPair := by
+  induction l with
+  | nil => rfl
+  | cons x xs ih =>
+    simp only [HB.bestOf, List.map_cons, ih]
+    cases h : HB.bestOf m xs with
+    | none => rfl
+    | some y =>
+      simp only [Option.map_some, HB.better, negPair]
+      cases m with
+      | false =>
+        simp only [Bool.not_false, if_true, Bool.false_eq_true, if_false]
+        by_cases hlt : x.2 < y.2
+        · have : -y.2 < -x.2 := by omega
+          simp [hlt, this, negPair]
+        · have : ¬ -y.2 < -x.2 := by omega
+          simp [hlt, this, negPair]
+      | true =>
+        simp only [Bool.not_true, if_true, Bool.false_eq_true, if_false]
+        by_cases hlt : y.2 < x.2
+        · have : -x.2 < -y.2 := by omega
+          simp [hlt, this, negPair]
+        · have : ¬ -x.2 < -y.2 := by omega
+          simp [hlt, this, negPair]
+
+theorem hb_candOf_neg (f : HB.St → HB.St) (o : HB.O) (cur : List HB.Entry) (e : HB.Entry) :
+    HB.candOf (negOf f o) cur e = (HB.candOf o cur e).map negPair := by
+  unfold HB.candOf
+  split
+  · rfl
+  · simp only [negO_getElem]
+    cases o.trials[e.id]? with
+    | none => rfl
+    | some t =>
+      simp only [Option.map_some, negTrial]
+      split
+      · cases t.score <;> rfl
+      · rfl
+
+theorem hb_candidates_neg (f : HB.St → HB.St) (o : HB.O) (prev cur : List HB.Entry) :
+    HB.candidates (negOf f o) prev cur = (HB.candidates o prev cur).map negPair := by
+  unfold HB.candidates
+  induction prev with
+  | nil => rfl
+  | cons e es ih =>
+    simp only [List.filterMap_cons, hb_candOf_neg]
+    cases HB.candOf o cur e with
+    | none => simpa using ih
+    | some p => simpa using ih
+
+theorem hb_tryPromote_neg (o : HB.O) (cfg : HB.Cfg) (b : HB.Bracket) : ∀ (rs : List (List HB.Entry)) (r : Nat),
+    HB.tryPromote (negOf flipDir o) { cfg with minimize := !cfg.minimize } b r rs = HB.tryPromote o cfg b r rs := by
+  intro rs
+  induction rs with
+  | nil => intro r; rfl
+  | cons prev rest ih =>
+    intro r
+    cases rest with
+    | nil => rfl
+    | cons cur rest' =>
+      simp only [HB.tryPromote, hb_candidates_neg, List.length_map, hb_bestOf_neg]
+      split
+      · cases HB.bestOf cfg.minimize (HB.candidates o prev cur) with
+        | none => simpa using ih (r + 1)
+        | some p => rfl
+      · exact ih (r + 1)
+
+theorem hb_scan_neg (o : HB.O) (cfg : HB.Cfg) : ∀ (brs : List HB.Bracket) (i : Nat),
+    HB.scan (negOf flipDir o) { cfg with minimize := !cfg.minimize } i brs = HB.scan o cfg i brs := by
+  intro brs
+  induction brs with
+  | nil => intro i; rfl
+  | cons b bs ih =>
+    intro i
+    simp only [HB.scan]
+    cases b.rounds with
+    | nil => exact ih (i + 1)
+    | cons r0 rest =>
+      simp only []
+      split
+      · rfl
+      · rw [hb_tryPromote_neg]
+        cases HB.tryPromote o cfg b 0 (r0 :: rest) with
+        | none => exact ih (i + 1)
+        | some p => rfl
+
+/-- Hyperband is its own mirror image once the direction flag it carries is flipped: the promotion winner is the only
+    place where scores are read (`hb_bestOf_neg`) -/
+theorem hyperband_mirror : MirrorF flipDir HB.alg HB.alg := by
+  refine ⟨?_, ?_, fun _ _ => rfl⟩
+  · intro l
+    show (l.map negR).getLast?.join = (l.getLast?.join).map (fun x => -x)
+    rw [List.getLast?_map]
+    cases l.getLast? with
+    | none => rfl
+    | some r => cases r <;> rfl
+  · intro o c
+    show HB.populate (negOf flipDir o) c = (flipDir (HB.populate o c).1, (HB.populate o c).2)
+    unfold HB.populate
+    have hcomp : ∀ (cfg : HB.Cfg) (b : HB.Bracket), HB.completeBracket { cfg with minimize := !cfg.minimize } b = HB.completeBracket cfg b :=
+      fun _ _ => rfl
+    have hcfg : (negOf flipDir o).alg.cfg = { o.alg.cfg with minimize := !o.alg.cfg.minimize } := rfl
+    have hbr : (negOf flipDir o).alg.brackets = o.alg.brackets := rfl
+    have hong : (negOf flipDir o).ongoing = o.ongoing := rfl
+    have hlen : (negOf flipDir o).trials.length = o.trials.length := by simp [negOf]
+    simp only [hcfg, hbr, hcomp, hb_scan_neg]
+    cases hs : HB.scan o o.alg.cfg 0 (o.alg.brackets.filter (fun b => !HB.completeBracket o.alg.cfg b)) with
+    | random bi =>
+      simp only []
+      cases (o.alg.brackets.filter (fun b => !HB.completeBracket o.alg.cfg b))[bi]? with
+      | none => rfl
+      | some b =>
+        simp only [HB.randomIn]
+        cases c with
+        | zero => simp only [hong]; rfl
+        | succ k => simp only [hlen]; rfl
+    | promote bi r pid =>
+      simp only [negO_getElem]
+      cases (o.alg.brackets.filter (fun b => !HB.completeBracket o.alg.cfg b))[bi]? with
+      | none => rfl
+      | some b =>
+        cases o.trials[pid]? with
+        | none => rfl
+        | some pt => simp only [Option.map_some, hlen]; rfl
+    | none =>
+      simp only []
+      have hcb : (negOf flipDir o).alg.currentBracket = o.alg.currentBracket := rfl
+      have hci : (negOf flipDir o).alg.currentIteration = o.alg.currentIteration := rfl
+      simp only [hcb, hci]
+      split
+      · simp only [hong]; rfl
+      · simp only [HB.randomIn]
+        cases c with
+        | zero => simp only [hong]; rfl
+        | succ k => simp only [hlen]; rfl
 
 /-- non-vacuity: two tuners, a retry and a tie; maximising s = (3, 5, 5) and minimising −s give the same answers and
     mirrored scores -/
@@ -280,3 +430,4 @@ end Symmetry
 #print axioms Symmetry.mirror_run
 #print axioms Symmetry.mirror_outputs
 #print axioms Symmetry.grid_mirror
+#print axioms Symmetry.hyperband_mirror
